@@ -11,6 +11,7 @@ import (
 	"go/constant"
 	"go/token"
 	"math/big"
+	"sort"
 	"strings"
 
 	"golang.org/x/tools/go/ssa"
@@ -380,4 +381,171 @@ func predOnBytes(callee *ssa.Function, ln, s0, s1 int64) (int, bool, string) {
 			}
 		}
 	}
+}
+
+// T-asm/reader (C13): NewFromASM reads each space-separated token of the text in exactly two ways - a token
+// that is a key of the opcode-name table becomes that opcode byte, every other token is hex data that is pushed
+// (an error if it is not hex) - which is the inverse of what ToASM writes (names and bare hex). A third way of
+// reading a token (decimal numbers, abbreviations ...) collides with hex data that happens to look like it. The
+// rule reads the conditions and the script-building calls of the function (helpers outside the baseline list
+// are part of it); no go-bt code runs.
+func ruleTAsmReader(c *Ctx) {
+	fn := c.P.Func("bscript", "", "NewFromASM")
+	if fn == nil {
+		c.Undecided("T-asm", "reader", token.NoPos, "NewFromASM not found")
+		return
+	}
+	v := viewOf(fn)
+	env := v.Env
+	var problems []string
+	// the token: an element of strings.Split(p0, " ")
+	isToken := func(x ssa.Value) bool {
+		for i := 0; i < 4; i++ {
+			switch y := x.(type) {
+			case *ssa.UnOp:
+				if y.Op != token.MUL {
+					return false
+				}
+				x = y.X
+				continue
+			case *ssa.IndexAddr:
+				call, ok := y.X.(*ssa.Call)
+				if !ok {
+					return false
+				}
+				sc := call.Call.StaticCallee()
+				if sc == nil || sc.String() != "strings.Split" {
+					return false
+				}
+				sep, ok := call.Call.Args[1].(*ssa.Const)
+				return ok && sep.Value != nil && sep.Value.Kind() == constant.String && constant.StringVal(sep.Value) == " " && call.Call.Args[0] == ssa.Value(fn.Params[0])
+			case *ssa.Index:
+				x = y.X
+				continue
+			}
+			return false
+		}
+		return false
+	}
+	// the table lookup opCodeStrings[token], ok
+	var lookup *ssa.Lookup
+	for _, ins := range v.Instrs {
+		if lk, ok := ins.(*ssa.Lookup); ok && lk.CommaOk {
+			if ld, ok := lk.X.(*ssa.UnOp); ok {
+				if g, ok := ld.X.(*ssa.Global); ok && g.Name() == "opCodeStrings" && isToken(lk.Index) {
+					if lookup != nil {
+						problems = append(problems, "the opcode-name table is consulted more than once")
+					}
+					lookup = lk
+				}
+			}
+		}
+	}
+	if lookup == nil {
+		c.Fail("T-asm", "reader", fn.Pos(), "NewFromASM no longer looks each space-separated token up in the opcode-name table (opCodeStrings[token], ok)")
+		return
+	}
+	isLookupPart := func(x ssa.Value, idx int) bool {
+		ex, ok := x.(*ssa.Extract)
+		return ok && ex.Tuple == ssa.Value(lookup) && ex.Index == idx
+	}
+	nCond, nCalls := 0, 0
+	var hexErr ssa.Value
+	for _, ins := range v.Instrs {
+		call, ok := ins.(*ssa.Call)
+		if !ok {
+			continue
+		}
+		sc := call.Call.StaticCallee()
+		if sc == nil {
+			continue
+		}
+		switch {
+		case sc.Name() == "AppendOpcodes" && sc.Signature.Recv() != nil:
+			nCalls++
+			// the byte appended is the table's value for the token, under ok
+			okArg := false
+			if sl, isSl := call.Call.Args[1].(*ssa.Slice); isSl {
+				if al, isAl := sl.X.(*ssa.Alloc); isAl && al.Referrers() != nil {
+					for _, r := range *al.Referrers() {
+						if ia, isIa := r.(*ssa.IndexAddr); isIa && ia.Referrers() != nil {
+							for _, r2 := range *ia.Referrers() {
+								if st, isSt := r2.(*ssa.Store); isSt && isLookupPart(st.Val, 0) {
+									okArg = true
+								}
+							}
+						}
+					}
+				}
+			}
+			if !okArg {
+				problems = append(problems, "AppendOpcodes is given something other than the table's byte for the token")
+			}
+			guarded := false
+			for _, dc := range dominatingConds(call.Block()) {
+				if isLookupPart(dc.cond, 1) && dc.truth {
+					guarded = true
+				}
+			}
+			if !guarded {
+				problems = append(problems, "an opcode byte is appended without the token being a key of the opcode-name table")
+			}
+		case sc.Name() == "AppendPushDataHexString" && sc.Signature.Recv() != nil:
+			nCalls++
+			if !isToken(call.Call.Args[1]) {
+				problems = append(problems, "the hex data pushed is not the token itself")
+			}
+			hexErr = call
+			conds := dominatingConds(call.Block())
+			seenNotOK := false
+			for _, dc := range conds {
+				switch {
+				case isLookupPart(dc.cond, 1) && !dc.truth:
+					seenNotOK = true
+				case isRangeLikeCond(dc.cond):
+				default:
+					problems = append(problems, "a token that is not an opcode name is pushed as hex data only under a further condition ("+shorten(atomName(env.Term(dc.cond)), 80)+"): some tokens are read a third way")
+				}
+			}
+			if !seenNotOK {
+				problems = append(problems, "hex data is pushed for tokens that are opcode names too")
+			}
+		case sc.Signature.Recv() != nil && namedOf(sc.Signature.Recv().Type()) == "Script" && strings.HasPrefix(sc.Name(), "Append"):
+			nCalls++
+			problems = append(problems, "the script is also built with "+sc.Name()+": a token is read in a way that is neither an opcode name nor hex data")
+		}
+	}
+	// every branch of the function is the loop, the table hit, or the hex error
+	for _, b := range v.Blocks {
+		iff, ok := b.Instrs[len(b.Instrs)-1].(*ssa.If)
+		if !ok {
+			continue
+		}
+		nCond++
+		switch {
+		case isLookupPart(iff.Cond, 1), isRangeLikeCond(iff.Cond):
+		default:
+			if bo, isBo := iff.Cond.(*ssa.BinOp); isBo && hexErr != nil && (bo.X == hexErr || bo.Y == hexErr) {
+				continue
+			}
+			problems = append(problems, "a branch on "+shorten(atomName(env.Term(iff.Cond)), 80)+": tokens are told apart by something other than the opcode-name table")
+		}
+	}
+	sort.Strings(problems)
+	c.Covered["T-asm:reader_conditions"] = nCond
+	c.Check(len(problems) == 0 && nCalls == 2, "T-asm", "reader", fn.Pos(), "each token is an opcode name (its byte appended) or hex data (pushed), nothing else",
+		"NewFromASM does not read a token exactly as an opcode name or else as hex data: "+strings.Join(problems, "; ")+fmt.Sprintf(" (%d script-building calls)", nCalls))
+}
+
+// isRangeLikeCond: the continuation test of a range / counted loop (index < len or index < n).
+func isRangeLikeCond(v ssa.Value) bool {
+	bo, ok := v.(*ssa.BinOp)
+	if !ok || bo.Op != token.LSS {
+		return false
+	}
+	_, isPhi := bo.X.(*ssa.Phi)
+	if x, isBin := bo.X.(*ssa.BinOp); isBin && x.Op == token.ADD {
+		_, isPhi = x.X.(*ssa.Phi)
+	}
+	return isPhi
 }
